@@ -374,6 +374,12 @@ class APIConnection:
                 f"Error connecting to {addrs}: {last_exception}"
             ) from last_exception
 
+        if self.connection_state is CONNECTION_STATE_CLOSED:
+            # The connection was closed while the socket was being
+            # connected, _cleanup already ran and will not close it
+            sock.close()
+            raise ConnectionInterruptedError
+
         self._socket = sock
         sock.setblocking(False)
         sock.setsockopt(socket.IPPROTO_TCP, socket.TCP_NODELAY, 1)
